@@ -295,6 +295,7 @@ INHERITED = {
     'hyphenate_character',
     'hyphenate_limit_chars',
     'hyphenate_limit_zone',
+    'image_orientation',
     'image_rendering',
     'image_resolution',
     'lang',
